@@ -15,3 +15,11 @@ pub use emf::{
     HighStorageResolutionCtor, MetricDefinition, MetricDirective, NoMetric, NoMetricCtor,
     SampledEmf, StorageResolution,
 };
+
+/// Verification hooks for the Kani harnesses under `/verif`; only compiled by `cargo kani`.
+#[cfg(kani)]
+#[doc(hidden)]
+pub mod verif_hooks {
+    pub use crate::buf::verif_hooks::*;
+    pub use crate::emf::verif_hooks::*;
+}
